@@ -32,7 +32,7 @@ type holeSite struct {
 	hole   int
 	kind   string // "comment" | "assigntok" | "incdectok" | "filename"
 	file   int
-	offset int // byte offset of the enclosing element (comment slash / token) in the substituted source
+	offset int      // byte offset of the enclosing element (comment slash / token) in the substituted source
 	texts  []string // per alternative: full comment text / token text
 }
 
